@@ -15,6 +15,7 @@ RULE = ("every ordered pair of Pauli strings on <=3 qubits x operations {*,+,-},
         "non-trivial = reference result is a non-zero matrix and at least one operand is a non-constant operator "
         "(for products of terms additionally counted: pairs with an anticommuting factor); distinct = canonical case json")
 RULE += ' Also: terms that tie on support and coefficient in every order, like coefficients inside one hash bucket that differ by more than the tolerance, rounding residues (0.1+0.2-0.3) under simplify.'
+RULE += ' Round 7: terms built with explicit identity factors (dict / iterable constructor); every ordered pair of full-weight strings on 4 qubits and same-letter strings on 5-9 shared qubits.'
 RULE += ' Round 6: one-term sums against numbers; powers of families of nearly equal sums in one process; results of arithmetic times 0 / 1e-12 / divided by 1e12 (both sides equal, no ~0 residue after simplify).'
 RULE += ' Round 5: the same small coefficient (1e-7..1e-3) on different strings is unequal; operators against plain numbers on either side (zero-coefficient strings, empty sum); operands of 1e-12..5e-9 times / divided by 1e8..1e9 factors.'
 ASSUMPTIONS = ["numpy dense arithmetic is correct", "PauliTerm.coefficient/.operations and PauliSum.terms are the public observables of an operator",
@@ -260,6 +261,11 @@ def construction_case(case):
             f = PauliTerm({int(q): ops[str(q)]}, 1.0)
             t = f if t is None else t * f
         objs.append(t)
+        # the same string through the iterable constructor, with EXPLICIT identity factors on other qubits (an identity factor is no factor)
+        its = [(ops[str(q)], int(q)) for q in perm]
+        objs.append(PauliTerm.from_iterable(its, 1.0))
+        objs.append(PauliTerm.from_iterable([("I", 4)] + its + [("I", 1 if 1 not in [int(q_) for q_ in perm] else 6)], 1.0))
+        objs.append(PauliTerm({**{int(q): ops[str(q)] for q in perm}, 4: "I"}, 1.0))
     ref = _sm(tuple(sorted((int(q), p) for q, p in ops.items())))
     k = 0
     for i, a in enumerate(objs):
@@ -273,6 +279,9 @@ def construction_case(case):
             d = (a - b).simplify()
             if len(s.terms) != 1 or abs(complex(s.terms[0].coefficient) - 2) > 1e-9 or len(d.terms) != 0:
                 return {"ok": False, "msg": "like terms built in different qubit orders are not merged by simplify", "observed": [repr(s), repr(d)], "sig": "construction:simplify"}
+            for tgt in (a, b):
+                if any(p_ == "I" for _, p_ in tgt.operations) or set(tgt.qubits) != {int(q_) for q_ in ops}:
+                    return {"ok": False, "msg": "a term built with explicit identity factors reports them as operations / acted-on qubits", "observed": [repr(tgt), str(list(tgt.operations)), str(tgt.qubits)], "sig": "construction:identity-kept"}
             other = PauliTerm({5: "Z"}, 0.5)  # commutes with every string on qubits 0..2
             if not (PauliSum([a, other]).simplify() == PauliSum([other, b]).simplify()) or not ((a + other) * (a + other) == (b * b + 2 * b * other + other * other)):
                 return {"ok": False, "msg": "equal sums built from differently ordered constructions compare unequal", "observed": [repr(a), repr(b)], "sig": "construction:sum-eq"}
@@ -435,6 +444,12 @@ def run(run):
     isums = [{"s": [[10 ** 10, {"0": "X"}], [7, {"1": "Z"}]]}, {"s": [[2 ** 62, {"8": "Y"}], [-(2 ** 61), {"8": "Z", "0": "X"}], [3, {}]]}, {"t": [10 ** 15, {"64": "Z"}]}, {"s": [[3, {"0": "Z"}], [4, {"1": "Z"}]]}]
     cases += [{"op": "mul", "a": n_, "b": o_} for n_ in bigs for o_ in isums] + [{"op": "mul", "a": o_, "b": n_} for n_ in bigs for o_ in isums]
     cases += [{"op": "mul", "a": a_, "b": b_} for a_ in isums for b_ in isums] + [{"op": op, "a": n_, "b": o_} for op in ("add", "sub") for n_ in bigs[:2] for o_ in isums]
+    # every ordered pair of FULL-WEIGHT strings on 4 qubits (the per-qubit phases of a product add up over 4 shared qubits), and same-letter strings on 5-9 shared qubits
+    fw = [{"t": [1.0, {str(q_): p_ for q_, p_ in enumerate(combo)}]} for combo in itertools.product("XYZ", repeat=4)]
+    cases += [{"op": "mul", "a": a_, "b": b_} for a_ in fw for b_ in fw]
+    for L_ in (5, 6, 7, 8, 9):
+        same = [{"t": [1.0, {str(q_): p_ for q_ in range(L_)}]} for p_ in "XYZ"] + [{"t": [1.0, {str(q_): "XYZ"[(q_ + sh) % 3] for q_ in range(L_)}]} for sh in (0, 1, 2)]
+        cases += [{"op": "mul", "a": a_, "b": b_} for a_ in same for b_ in same]
     secs.append(Section("far_qubits", cases, far_case, desc="all ordered pairs of %d strings on qubits {0,7,8,9,63,64,100,1000} and sums of 70 terms: * + - judged by coefficient maps" % len(fstr)))
     # --- simplify: ordered lists (order matters for like-term merging)
     pool = term_pool()
